@@ -1,8 +1,13 @@
 """C12 — DiplomatWrite is exact and never overruns (Engine R, model-based with injected grow outcomes)."""
-from .. import rt
+import json
+from .. import rt, pbt
+from . import c12_e2e
 
 RULE = ("proptest-generated (writer kind, initial capacity, grow-outcome pattern, chunk/flush sequence); the real writer is "
         "observed through the documented repr(C) layout after every operation and compared with a Vec<u8>+sticky-flag model. "
+        "End-to-end leg (Hypothesis): chunk lists (empty, ASCII, multi-byte, beyond the small-string size) written by a real bridge method and read back through the generated C API "
+        "(Rust-owned growable writer of any initial capacity; fixed caller buffer of exactly n bytes under AddressSanitizer, n around the total and the chunk boundaries) and the generated C++ API "
+        "(std::string-backed writer, plain and Result-returning): the text, its length, the sticky failure flag and the NUL position must be the model's. "
         "Non-trivial: caller-supplied writer with a successful grow, then a failed grow, then a further non-empty write; "
         "fixed writer that overflows and is written to again; Rust-owned writer that grows at least once. Distinct = distinct serialized case.")
 
@@ -10,7 +15,7 @@ ASSUME = [
     "DiplomatWrite's private fields are read through the 7-field repr(C) mirror documented in capi.h (size mismatch = inconclusive)",
     "diplomat_buffer_write_get_bytes/len are also called on caller-supplied writers (they only read fields)",
     "a grow() request is expected exactly when len+chunk > cap and no earlier growth failed ('calling grow() as necessary')",
-    "the end-to-end C/C++ string-return leg of this property is exercised by the C01/C02 drivers, not here",
+    "end-to-end leg: the generated C and C++ headers of one fixed bridge are trusted to compile (C09's subject); a driver that does not build is reported as a violation of this property's last sentence only because nothing can then be returned at all",
 ]
 
 
@@ -30,6 +35,12 @@ def legs(ctx):
 
 def run(ctx):
     m = rt.run_legs("C12", legs(ctx), ctx.seed)
+    e = pbt.run_workers("checks.c12_e2e", "worker", 6, ctx.seed + 11, {"n": 120 if ctx.quick else 4000})
+    m["evaluations"] += e["evaluations"]
+    m["distinct_nontrivial"] += e["distinct_nontrivial"]
+    m["labels"] = dict(m["labels"], **e["labels"])
+    m["samples"] = list(m["samples"])[:3] + e["samples"][:1]
+    m["violations"] = list(m["violations"]) + e["violations"]
     cov = {
         "evaluations": m["evaluations"], "distinct_nontrivial": m["distinct_nontrivial"], "rule": RULE,
         "samples": m["samples"], "labels": m["labels"], "legs": m["legs"],
@@ -38,4 +49,13 @@ def run(ctx):
 
 
 def replay(ctx):
+    c = json.load(open(ctx.replay)).get("case")
+    if isinstance(c, dict) and c.get("kind") == "e2e":
+        msg = c12_e2e.replay_case(c["case"])
+        print(msg or "replay ok: the text came back exactly")
+        return {"violations": [{"replay": ctx.replay, "message": msg}] if msg else []}
+    if isinstance(c, dict) and c.get("kind") == "e2e-setup":
+        msg = c12_e2e.replay_case({"chunks": ["a"], "mode": "s", "p1": 0, "fail": False})
+        print(msg or "replay ok")
+        return {"violations": [{"replay": ctx.replay, "message": msg}] if msg else []}
     return rt.replay("C12", ctx.replay)
